@@ -37,6 +37,12 @@ type Case struct {
 	// ONE DATA CONTEXT - a first run on another fresh instance precedes it, then the caller puts the initial
 	// values back into the same fact objects - and judged again
 	ReuseDC bool
+	// Histories: the default-order run of every (program, world) is repeated after each usage history of
+	// histories.go and judged again
+	Histories bool
+	InHistory bool // set on the copies judged after a usage history
+	// JSONProv: one more build provenance - the program in its JSON form, through the JSON translator
+	JSONProv bool
 }
 
 // Verdict is what a judge returns for one trace.
@@ -52,7 +58,7 @@ type FamilyStats struct {
 	Nontrivial                          int64
 	Foreign                             int64
 	BuildFail                           int64
-	Reused, ReusedDC                    int64
+	Reused, ReusedDC, HistoryRuns       int64
 	ProvenancesIso                      int64
 	CloneOrders, CloneShapes            int64
 	Capped                              int64
@@ -130,6 +136,9 @@ func RunFamily(rep *ev.Reporter, gen func(emit func(Case)), maxRunsPerWorld int,
 	if fs.Reused > 0 {
 		rep.Coverage["second_use_runs"] = fs.Reused
 	}
+	if fs.HistoryRuns > 0 {
+		rep.Coverage["runs_after_a_usage_history"] = fs.HistoryRuns
+	}
 	if fs.ReusedDC > 0 {
 		rep.Coverage["second_runs_on_one_data_context"] = fs.ReusedDC
 	}
@@ -201,6 +210,20 @@ func runCase(rep *ev.Reporter, c *Case, maxRuns int, fs *FamilyStats, judge func
 				continue
 			}
 			variants = append(variants, variant{sb, tag})
+		}
+	}
+	if c.JSONProv && !c.Reloaded {
+		jb, err := hx.BuildJSON(prog, c.Style)
+		if err != nil {
+			rep.Violation(rep.ID+":program-accepted-as-GRL-rejected-in-its-JSON-form", err.Error()+"\n  grl: "+prog.Text, map[string]interface{}{"case": c.ID + "#json", "grl": prog.Text})
+		} else {
+			// metadata first: the translator must hand over every rule's salience
+			for _, r := range c.Rules {
+				if e := jb.Lib.GetKnowledgeBase(hx.KBName, hx.KBVer).RuleEntries[r.Name]; e == nil || int64(e.Salience) != salOf(r) {
+					rep.Violation(rep.ID+":rule-of-the-JSON-form-has-another-salience", fmt.Sprintf("rule %s declares salience %d; built from the JSON form the knowledge base holds %+v", r.Name, salOf(r), e), map[string]interface{}{"case": c.ID + "#json", "grl": prog.Text})
+				}
+			}
+			variants = append(variants, variant{jb, "#json"})
 		}
 	}
 	bpShapes := map[string]bool{}
@@ -384,6 +407,35 @@ func runCase(rep *ev.Reporter, c *Case, maxRuns int, fs *FamilyStats, judge func
 							}
 						}
 					}
+
+					if c.Histories && len(tr.Choices) > 0 && allZero(tr.Choices) {
+						for _, hv := range historyVariants(c, b, prog, mk) {
+							atomic.AddInt64(&fs.HistoryRuns, 1)
+							for _, v := range judge(hv.c, hv.tr, hv.w) {
+								if v.Sig == "" {
+									continue
+								}
+								same := false
+								for _, hv2 := range historyVariants(c, b, prog, mk) {
+									if hv2.label != hv.label {
+										continue
+									}
+									for _, v2 := range judge(hv2.c, hv2.tr, hv2.w) {
+										if v2.Sig == v.Sig {
+											same = true
+										}
+									}
+								}
+								if !same {
+									atomic.AddInt64(&fs.Nondet, 1)
+									fmt.Printf("HARNESS-NONDETERMINISM property=%s case=%s sig=%s (history %s: verdict not reproduced)\n", rep.ID, caseID, v.Sig, hv.label)
+									continue
+								}
+								rep.Violation(v.Sig+":after-"+hv.label, v.What+"\n  (observed in a run that followed the usage history '"+hv.label+"', see internal/checks/histories.go)\n  case: "+caseID+"#"+hv.label+"\n  grl: "+strings.ReplaceAll(prog.Text, "\n", "\n       ")+"\n  events: "+strings.Join(hv.tr.Events, " "),
+									map[string]interface{}{"case": caseID, "grl": prog.Text, "world": wname, "choices": tr.Choices, "events": hv.tr.Events, "meta": c.Meta, "history": hv.label})
+							}
+						}
+					}
 					if first {
 						first = false
 						// determinism self-check: same choices, identical observation
@@ -459,4 +511,13 @@ func ParallelEach(n int, fn func(i int)) {
 		}()
 	}
 	wg.Wait()
+}
+
+func allZero(xs []int) bool {
+	for _, x := range xs {
+		if x != 0 {
+			return false
+		}
+	}
+	return true
 }
